@@ -55,6 +55,20 @@ prop("C13", "exploration",
       "a hang is judged by a 3 s real-time bound on payload.NewDecoder",
       "the HTTP leg (real client/server) is covered by the wire checks, not here"])
 
+prop("C18", "exploration",
+     "histories of 1-25 steps on a fake clock (synctest): 1-3 concurrent writers append Sent/Received records with names "
+     "composed from colliding pieces (prefixes, suffixes, infixes of one another, optional ':'), 4 hashes differing in one "
+     "digit, renames drawn from the same pool; time advances 1-40 h or 3-35 days between steps; then 1-12 look-ups "
+     "(logged and unlogged names, with/without hash, windows same-day / multi-day / reversed / empty) and a Parse over "
+     "everything, compared with the list of records written (completeness on days the window touches, soundness within "
+     "+-1 day); non-trivial = a look-up whose name is contained in another record of the visited days, or the same name "
+     "logged with another hash, or a window crossing midnight",
+     [dict(pkg="logx", test="TestC18", world="W0-bubble", quick=2400, thorough=60000, per_proc=150,
+           required_classes=["name-is-substring-of-other-record", "same-name-other-hash", "window-crosses-midnight",
+                             "concurrent-writers", "month-scale-gap"])],
+     ["TZ=UTC; the fake clock of testing/synctest stands in for the wall clock",
+      "soundness is only demanded when no exact record lies within one day of the window (the look-up may visit one day beyond it)"])
+
 # ---------------------------------------------------------------------------
 # texts for MANIFEST.json (tools/mkmanifest.py)
 
@@ -88,5 +102,13 @@ MANIFEST_TEXT["C13"] = dict(
          "EOF at end-beg. Malformed streams must be refused (error) or, if accepted, never hand out a complete part with bytes "
          "of another position; a decoder that does not return within 3 s is a violation.",
     note="In-memory leg only in this unit; trusts the harness's Binnable and in-memory Readable.")
+
+MANIFEST_TEXT["C18"] = dict(
+    technique="model-based property testing on a fake clock (rapid generators + testing/synctest): generated write/advance/look-up histories vs. the list of records written",
+    text="Generated-history search against a list-of-records model: look-ups must say yes for exact records on touched days "
+         "and no when no exact record is within a day of the window; Parse must replay every record. Two findings about "
+         "names containing ':' are recorded as known and set aside by key.",
+    note="log.FileIO runs on testing/synctest's fake clock; one bubble per process; failures are minimised by the harness's "
+         "own replay-based shrinker.")
 
 NOT_CLAIMED = {}
